@@ -22,6 +22,7 @@ func runC08(c *Ctx) {
 	c.rule("R-CHECK-PURE", 2, "Cache.Has uses only Store.Check; lruStore.Check and its callees have no effects")
 	c.rule("R-CLOCK", 2, "every lastAccess written is load(clock) preceded in-block by clock = clock+1; clock has no other writer")
 	c.assume("the size function returns non-negative values (sizeOf >= 0)")
+	ruleBuilderCarries(c)
 
 	cacheT := P.Named("cache", "Cache")
 	storeIfc := P.Named("cache", "Store")
